@@ -33,6 +33,8 @@ type fatOp struct {
 	Len int    `json:"len,omitempty"`
 	Tag int    `json:"tag,omitempty"`
 	K   int    `json:"k,omitempty"`
+	// Held: this write goes through the handle that an earlier Hold call opened on the file and kept
+	Held bool `json:"held,omitempty"`
 }
 
 type fatCfg struct {
@@ -68,6 +70,7 @@ type fatRun struct {
 	sizeU  map[string]int // mirror of file sizes in units (only to place appends)
 	maxTag int
 	step   int
+	kept   map[string]filesystem.File // handles opened by Hold and not used yet
 	sha    bool // record SHA-256 of the volume range after every call (C14)
 	raw    bool // record the raw projection (C08)
 }
@@ -261,7 +264,7 @@ func (r *fatRun) rawProjection() map[string]any {
 }
 
 func (r *fatRun) event(op fatOp, res, panicked string, same []int) map[string]any {
-	ev := map[string]any{"a": op.A, "p": op.P, "q": op.Q, "off": op.Off, "len": op.Len, "tag": op.Tag, "k": op.K, "res": res, "panic": panicked}
+	ev := map[string]any{"a": op.A, "p": op.P, "q": op.Q, "off": op.Off, "len": op.Len, "tag": op.Tag, "k": op.K, "res": res, "panic": panicked, "held": op.Held}
 	api, extra := r.project(r.vol.FS)
 	ev["api"] = api
 	var api2 map[string]any
@@ -341,6 +344,15 @@ func (r *fatRun) do(op fatOp) map[string]any {
 					r.sizeU[op.P] = 0
 				}
 			}
+		case "Hold":
+			var f filesystem.File
+			f, err = fs.OpenFile(r.real(op.P, false), os.O_RDWR)
+			if err == nil {
+				if r.kept == nil {
+					r.kept = map[string]filesystem.File{}
+				}
+				r.kept[op.P] = f
+			}
 		case "WriteAt", "Append":
 			flag := os.O_RDWR
 			off := op.Off
@@ -349,13 +361,19 @@ func (r *fatRun) do(op fatOp) map[string]any {
 				off = r.sizeU[op.P]
 			}
 			var f filesystem.File
-			f, err = fs.OpenFile(r.real(op.P, variant), flag)
-			if err != nil {
-				return
+			if kf, ok := r.kept[op.P]; ok && op.Held {
+				// the handle was opened some calls ago and has been kept open since
+				f = kf
+				delete(r.kept, op.P)
+			} else {
+				f, err = fs.OpenFile(r.real(op.P, variant), flag)
+				if err != nil {
+					return
+				}
 			}
 			defer f.Close()
 			lo, hi := r.unit(off), r.unit(off+op.Len)
-			if op.A == "WriteAt" {
+			if op.A == "WriteAt" || op.Held {
 				if _, err = f.Seek(lo, io.SeekStart); err != nil {
 					return
 				}
@@ -477,6 +495,9 @@ func fatExec(cfg fatCfg, ops []fatOp, sha, raw bool) ([]map[string]any, error) {
 	evs := []map[string]any{ev0}
 	for _, op := range ops {
 		evs = append(evs, r.do(op))
+	}
+	for _, f := range r.kept {
+		f.Close()
 	}
 	return evs, nil
 }
